@@ -15,7 +15,7 @@ Definition eligible (c : cfg) (s : state) (n : nat) (d : list nat) (x : nat) : P
 (* exact description of what the main wake of scheduler n that reports d does to its run record *)
 Definition main_upd (c : cfg) (s s' : state) (n : nat) (d : list nat) : Prop :=
   let r := Rn s n in let r' := Rn s' n in
-  seen r' = seen r ++ d /\ rcanc r' = rcanc r /\
+  seen r' = seen r ++ d /\ rcanc r' = rcanc r /\ (fto r' = fto r /\ fcr r' = fcr r) /\
   ((exists w, (ph r' = PTidy w \/ ph r' = PShut w) /\ pend r' = diff (pend r) d /\
       (ph r' = PShut w -> diff (pend r) d = []) /\
       (forall y, In y (pend r') -> Jb s' y = cancel_j (Jb s y)) /\
@@ -96,6 +96,7 @@ Inductive reff (c : cfg) (s s' : state) (m : nat) (act : Prop) : Prop :=
      (ph (Rn s m) = PCTidy \/ rcanc (Rn s m) = true) \/ cp (Jb s m) = true) ->
     (kept s s' m
      \/ (ph (Rn s m) = PMain /\ exists d, seteqb d (filter (jfin s) (pend (Rn s m))) = true /\ NoDup d /\ main_upd c s s' m d)) ->
+    (ph (Rn s' m) <> POver -> fto (Rn s' m) = fto (Rn s m) /\ fcr (Rn s' m) = fcr (Rn s m)) ->
     reff c s s' m act.
 
 Lemma neq_vac (m n : nat) (P : Prop) : m <> n -> m = n -> P.
@@ -156,32 +157,34 @@ Proof.
      let r' := Rn (fst (exit_main c n w pend' (setR s n v))) n in
      seen r' = seen r ++ d /\ (ph r' = PTidy w \/ ph r' = PShut w) /\ pend r' = pend' /\
      (ph r' = PShut w -> pend' = []) /\ ndone r' = ndone v /\ rcanc r' = rcanc v /\
+     (fto r' = fto v /\ fcr r' = fcr v) /\
      (forall y, In y (pend r') -> Jb (fst (exit_main c n w pend' (setR s n v))) y = cancel_j (Jb s y))).
-  { intros w v Hv Hs. cbn zeta. rewrite Rn_exit_main_n. cbn [seen ph pend ndone rcanc].
+  { intros w v Hv Hs. cbn zeta. rewrite Rn_exit_main_n. cbn [seen ph pend ndone rcanc fto fcr].
     split; [exact Hs|]. split; [destruct pend'; auto|]. split; [exact Hv|].
     split; [destruct pend'; [reflexivity|discriminate]|]. split; [reflexivity|]. split; [reflexivity|].
+    split; [split; reflexivity|].
     intros y Hy. rewrite Jb_exit_main, Jb_setR. rewrite Hv in Hy. apply memb_In in Hy. rewrite Hy. reflexivity. }
   destruct d as [|d0 d'] eqn:Ed.
   - match goal with |- context [exit_main c n WTimeout pend' (setR s n ?v)] =>
-      destruct (Hex WTimeout v eq_refl eq_refl) as (A & B & C & D & E & F & G) end.
-    split; [exact A|]. split; [exact F|]. left. exists WTimeout. repeat split; auto.
+      destruct (Hex WTimeout v eq_refl eq_refl) as (A & B & C & D & E & F & FL & G) end.
+    split; [exact A|]. split; [exact F|]. split; [exact FL|]. left. exists WTimeout. repeat split; auto.
   - rewrite <- Ed in *. assert (Hne : d <> []) by (rewrite Ed; discriminate). clear Ed.
     fold (crit_exc c s).
     change (fun j : nat => j_crit (jc c j) && is_exc (st (Jb s j))) with (crit_exc c s).
     destruct (existsb (crit_exc c s) d) eqn:Ecrit.
     + match goal with |- context [exit_main c n WCritical pend' (setR s n ?v)] =>
-        destruct (Hex WCritical v eq_refl eq_refl) as (A & B & C & D & E & F & G) end.
-      split; [exact A|]. split; [exact F|]. left. exists WCritical. repeat split; auto.
+        destruct (Hex WCritical v eq_refl eq_refl) as (A & B & C & D & E & F & FL & G) end.
+      split; [exact A|]. split; [exact F|]. split; [exact FL|]. left. exists WCritical. repeat split; auto.
     + fold (nonforever c d). fold (nfinite c n).
       change (length (filter (fun j : nat => negb (j_forever (jc c j))) d)) with (nonforever c d).
       change (length (filter (fun j : nat => negb (j_forever (jc c j))) (members c n))) with (nfinite c n).
       destruct (Nat.eqb_spec (ndone r + nonforever c d) (nfinite c n)) as [Ecnt|Ecnt].
       * match goal with |- context [exit_main c n WSuccess pend' (setR s n ?v)] =>
-          destruct (Hex WSuccess v eq_refl eq_refl) as (A & B & C & D & E & F & G) end.
-        split; [exact A|]. split; [exact F|]. left. exists WSuccess. repeat split; auto.
+          destruct (Hex WSuccess v eq_refl eq_refl) as (A & B & C & D & E & F & FL & G) end.
+        split; [exact A|]. split; [exact F|]. split; [exact FL|]. left. exists WSuccess. repeat split; auto.
         rewrite E. cbn [ndone]. exact Ecnt.
-      * cbn [fst]. rewrite Rn_setR_same. cbn [seen ph pend ndone rcanc].
-        split; [reflexivity|]. split; [reflexivity|]. right.
+      * cbn [fst]. rewrite Rn_setR_same. cbn [seen ph pend ndone rcanc fto fcr].
+        split; [reflexivity|]. split; [reflexivity|]. split; [split; reflexivity|]. right.
         set (cand := filter _ (members c n)). set (new := filter _ cand).
         split; [exact HphM|]. split; [exact Hne|]. split; [reflexivity|]. split; [reflexivity|].
         split; [exact Ecnt|].
@@ -298,7 +301,7 @@ Proof.
   destruct (st_react_main_self c n d s W) as [Hst Hran].
   apply andb_true_iff in G12. destruct G12 as [G12a G12b]. apply nodupb_spec in G12b.
   set (s' := fst (react_main c n d s)) in *.
-  destruct U as (U1 & U2 & U3).
+  pose proof U as U0. destruct U as (U1 & U2 & UF & U3).
   assert (Hph' : ph (Rn s' n) <> PIdle /\ ph (Rn s' n) <> POver /\ ph (Rn s' n) <> PCTidy).
   { destruct U3 as [(w & [Hw|Hw] & _)|(Hw & _)]; rewrite Hw; repeat split; discriminate. }
   destruct Hph' as (P1 & P2 & P3).
@@ -315,7 +318,8 @@ Proof.
       * right. apply Hnew in Hy. destruct Hy as [Hy _]. exact Hy.
   - intros H. exfalso. apply H. exact Hph.
   - apply cmode_same; auto.
-  - right. split; [exact Hph|]. exists d. repeat split; auto.
+  - right. split; [exact Hph|]. exists d. split; [exact G12a|]. split; [exact G12b|exact U0].
+  - intros _. exact UF.
 Qed.
 
 Lemma reff_end_cancelled c s s0 n m :
@@ -329,6 +333,9 @@ Proof.
     assert (P6 : ph (Rn (fst (end_cancelled c n s0)) n) = PCTidy \/ rcanc (Rn (fst (end_cancelled c n s0)) n) = true ->
                  (ph (Rn s n) = PCTidy \/ rcanc (Rn s n) = true) \/ cp (Jb s n) = true)
       by (apply cmode_same; [rewrite H1; discriminate|rewrite rcanc_end_cancelled, E; reflexivity]).
+    assert (P8 : ph (Rn (fst (end_cancelled c n s0)) n) <> POver ->
+                 fto (Rn (fst (end_cancelled c n s0)) n) = fto (Rn s n) /\ fcr (Rn (fst (end_cancelled c n s0)) n) = fcr (Rn s n))
+      by (intros H; contradiction).
     assert (P7 : kept s (fst (end_cancelled c n s0)) n).
     { destruct (seen_end_cancelled c n s0) as [S1 S2]. apply kept_over; [exact H1|rewrite S1, E; reflexivity|rewrite S2, E; reflexivity|rewrite H2, E; reflexivity|exact Hpo|rewrite rcanc_end_cancelled, E; reflexivity]. }
     apply RE_actor; auto.
@@ -350,6 +357,9 @@ Proof.
     assert (P6 : ph (Rn (fst (finish_run c n w r cu s0)) n) = PCTidy \/ rcanc (Rn (fst (finish_run c n w r cu s0)) n) = true ->
                  (ph (Rn s n) = PCTidy \/ rcanc (Rn s n) = true) \/ cp (Jb s n) = true)
       by (apply cmode_same; [rewrite H1; discriminate|rewrite rcanc_finish_run, E; reflexivity]).
+    assert (P8 : ph (Rn (fst (finish_run c n w r cu s0)) n) <> POver ->
+                 fto (Rn (fst (finish_run c n w r cu s0)) n) = fto (Rn s n) /\ fcr (Rn (fst (finish_run c n w r cu s0)) n) = fcr (Rn s n))
+      by (intros H; contradiction).
     assert (P7 : kept s (fst (finish_run c n w r cu s0)) n).
     { destruct (seen_finish_run c n w r cu s0) as [S1 S2]. apply kept_over; [exact H1|rewrite S1, E; reflexivity|rewrite S2, E; reflexivity|rewrite H2, E; reflexivity|exact Hpo|rewrite rcanc_finish_run, E; reflexivity]. }
     apply RE_actor; auto.
@@ -387,6 +397,10 @@ Proof.
         unfold why_of. rewrite Hph.
         repeat split; auto; try (intros; discriminate); try (exists (fun _ => true); apply filter_true_id).
         intros w' Hw'. inversion Hw'; subst. auto. }
+      match goal with |- reff c s ?S' n _ =>
+        assert (P8 : ph (Rn S' n) <> POver -> fto (Rn S' n) = fto (Rn s n) /\ fcr (Rn S' n) = fcr (Rn s n))
+          by (intros _; rewrite Rn_shutdown_start, ph_set_phase, Nat.eqb_refl; split; reflexivity)
+      end.
       apply RE_actor; auto.
       * intros Hn0. apply Hr. exact Hn0.
       * rewrite Hph. discriminate.
@@ -501,6 +515,10 @@ Proof.
           f_equal. rewrite Jb_clear_cp. apply rootb_false in Hn0. rewrite Hn0.
           assert (Hyn : y <> n) by (apply (member_neq c n y W); apply Hpok; apply Hu; exact Hy).
           apply Nat.eqb_neq in Hyn. rewrite Hyn. reflexivity. }
+      match goal with |- reff c s ?S' n _ =>
+        assert (P8 : ph (Rn S' n) <> POver -> fto (Rn S' n) = fto (Rn s n) /\ fcr (Rn S' n) = fcr (Rn s n))
+          by (intros _; rewrite Rn_setR_same; cbn [fto fcr]; rewrite Rn_clear_cp; split; reflexivity)
+      end.
       apply RE_actor; auto.
       * rewrite Hph. discriminate.
       * rewrite Rn_setR_same. discriminate.
@@ -528,6 +546,10 @@ Proof.
     end.
     { unfold kept. rewrite Rn_setR_same. cbn [seen ndone ph pend]. rewrite Rn_clear_cp, Hph.
       repeat split; auto; try (intros; discriminate); try (exists (fun _ => true); apply filter_true_id). }
+    match goal with |- reff c s ?S' n _ =>
+      assert (P8 : ph (Rn S' n) <> POver -> fto (Rn S' n) = fto (Rn s n) /\ fcr (Rn S' n) = fcr (Rn s n))
+        by (intros _; rewrite Rn_setR_same; cbn [fto fcr]; rewrite Rn_clear_cp; split; reflexivity)
+    end.
     apply RE_actor; auto.
     + rewrite Hph. discriminate.
     + rewrite Rn_setR_same. cbn [ph]. rewrite Rn_clear_cp, Hph. discriminate.
@@ -561,6 +583,10 @@ Proof.
       assert (P7 : kept s (fst (react_shut_cancel c n (setR s0 n v))) n).
       { unfold kept. rewrite Ephn, ER, Rn_setR_same. unfold v, s0. cbn [seen ndone pend]. rewrite Rn_clear_cp, Hw.
         repeat split; auto; try (intros; discriminate); try (exists (fun _ => true); apply filter_true_id). }
+      assert (P8 : ph (Rn (fst (react_shut_cancel c n (setR s0 n v))) n) <> POver ->
+                   fto (Rn (fst (react_shut_cancel c n (setR s0 n v))) n) = fto (Rn s n) /\
+                   fcr (Rn (fst (react_shut_cancel c n (setR s0 n v))) n) = fcr (Rn s n))
+        by (intros _; rewrite ER, Rn_setR_same; unfold v, s0; cbn [fto fcr]; rewrite Rn_clear_cp; split; reflexivity).
       apply RE_actor; auto.
       * rewrite Ephn. exact Hph.
       * intros _. left. rewrite EJ, Ephn. destruct (st_clear_cp s n) as [B _]. unfold s0. rewrite B, Hst, Hw.
